@@ -1,6 +1,7 @@
 package main
 
 import (
+	"os"
 	"fmt"
 	"go/token"
 	"go/types"
@@ -121,7 +122,7 @@ func (f *frame) stepFrames(pos token.Pos) {
 	for h := range vc.heapSort {
 		known[h] = true
 	}
-	for _, fm := range f.frameConds(ct, f.specEnv(f.entry), f.entry, f.st, union(union(eff, actual), known)) {
+	for _, fm := range f.frameConds(ct, f.specEnv(f.entry), f.entry, f.st, union(eff, known)) {
 		if fm.formula == "true" {
 			continue
 		}
@@ -384,6 +385,14 @@ func (f *frame) applyContract(ct *Contract, fn *ssa.Function, sig *types.Signatu
 	if len(f.extraEff) > 0 {
 		eff = union(eff, f.extraEff)
 		f.extraEff = nil
+	}
+	if os.Getenv("GVC_DEBUGEFF") != "" && strings.Contains(display, os.Getenv("GVC_DEBUGEFF")) {
+		var ks []string
+		for k := range eff {
+			ks = append(ks, k)
+		}
+		sort.Strings(ks)
+		fmt.Fprintf(os.Stderr, "effects at call of %s: %v\n", display, ks)
 	}
 	f.havocTo(pre, eff)
 	post := f.st
@@ -736,11 +745,15 @@ func (f *frame) applyIface(ct *Contract, c *ssa.CallCommon, sig *types.Signature
 	short := key[strings.LastIndex(key, "/")+1:]
 	for _, cl := range ct.Requires {
 		f.oblige("pre", short+"."+cl.Label, cl.Props, env.trBool(cl.Expr), pos)
+		if cl.ExplicitProps {
+			f.vc.obls[len(f.vc.obls)-1].PropsOnly = true
+		}
 	}
 	eff := vc.eng.contractEffects(ct, nil, sig)
 	f.havocTo(pre, eff)
 	post := f.st
 	f.frameFormulas(ct, env, pre, post, eff)
+	f.assumeFreshOnlyClause(ct, pre, post)
 	results := f.freshResults(sig, "r."+sanitize(short))
 	penv := env.clone()
 	penv.st = post
